@@ -21,7 +21,10 @@ def seed_rng(seed, salt):
 def axes(seed=0):
     A = [(1, 0, 0), (-1, 0, 0), (0, 1, 0), (0, -1, 0), (0, 0, 1), (0, 0, -1),
          _u((1, 1, 0)), _u((1, 0, 1)), _u((0, 1, 1)), _u((1, 1, 1)),
-         _u((1, -2, 3)), _u((-0.3, 0.5, 0.81)), _u((1e-3, 1, 0)), _u((1, 1e-9, 0))]
+         _u((1, -2, 3)), _u((-0.3, 0.5, 0.81)), _u((1e-3, 1, 0)), _u((1, 1e-9, 0)),
+         # coordinate axes tilted by 1e-5 .. 1e-4 rad: inside the sub-branches of the half-turn logarithm that are
+         # selected by 1e-6 tests on 1 + R_ii (those quantities are ~tilt^2 there)
+         _u((1, 1e-4, 3e-5)), _u((2e-5, 1, 1e-4)), _u((1e-4, -3e-5, 1))]
     A = [np.asarray(a, float) for a in A]
     g = seed_rng(seed, 11).normal(size=3)
     A.append(_u(g))
